@@ -1105,6 +1105,28 @@ def install():
         preprocess._sim_counted = True
         bal.preprocess = preprocess
         patched.append(("synrbl.balancing", "preprocess(counter)"))
+    dec = sys.modules.get("synrbl.SynProcessor.rsmi_decomposer")
+    if dec is not None and not getattr(dec.RSMIDecomposer.decompose, "_sim_fault", False):
+        import functools
+
+        _orig_dec = dec.RSMIDecomposer.decompose
+
+        @functools.wraps(_orig_dec)
+        def decompose(smiles):  # fault point inside the worker task: a transient failure of one composition count
+            sim = Sim.current
+            if sim is not None:
+                k = sim.decompose_calls
+                sim.decompose_calls += 1
+                if sim.explicit:
+                    f = sim.explicit.get(sim.fault_label("decompose", (k,)))
+                    if f is not None:
+                        sim.fire(f, None)
+                        raise RuntimeError("simulated failure in RSMIDecomposer.decompose call %d" % k)
+            return _orig_dec(smiles)
+
+        decompose._sim_fault = True
+        dec.RSMIDecomposer.decompose = staticmethod(decompose)
+        patched.append(("synrbl.SynProcessor.rsmi_decomposer", "RSMIDecomposer.decompose(fault point)"))
     _install_monitoring(sys.modules)
     procstate.discover()
     _installed["patched"] = patched
